@@ -780,3 +780,48 @@ Proof.
     + rewrite map_length in E. lia.
     + rewrite Nat2Z.id. rewrite cat_value by (rewrite map_length; lia). rewrite Hl. reflexivity.
 Qed.
+(* ====================================================================================
+   Part C.  Everything after the preparation of the event list (lines 753-770 + CategoricalData).
+   ==================================================================================== *)
+Definition wf_result (v e : list Z) (N : Z) (allow_repeats : bool) : Prop :=
+  (exists t, e = 0 :: t) /\ ssorted e /\ last e 0 = N /\ length e = S (length v) /\
+  (allow_repeats = false -> norep v).
+
+Lemma zrange_bounds N k : In k (zrange N) -> 0 <= k < N.
+Proof.
+  unfold zrange. intro H. apply in_map_iff in H. destruct H as [i [Hi Hin]]. apply in_seq in Hin. lia.
+Qed.
+
+Lemma tail_rule (greedy : list Z) (ar : bool) v0 (l : list (Z * Z)) N :
+  nondecr 0 l -> Forall (fun e => fst e < N) ((0, v0) :: l) ->
+  let isg := fun v => memZ v greedy in
+  let ve := s2c_tail (v0 :: map snd l) (0 :: map fst l) N greedy ar in
+  cat_all (cat_of (fst ve) (snd ve)) = Ok (map (ivalue isg ((0, v0) :: l)) (zrange N)) /\
+  wf_result (fst ve) (snd ve) N ar.
+Proof.
+  intros Hn Hf isg. unfold s2c_tail.
+  pose proof (generator_rule isg v0 l N Hn Hf) as HG. cbv zeta in HG.
+  change ((0 :: map fst l) ++ [N]) with (0 :: map fst l ++ [N]).
+  fold isg.
+  destruct (single_event_per_dump (0 :: map fst l ++ [N]) (map isg (v0 :: map snd l))) as [c e] eqn:Ece.
+  simpl fst in HG. simpl snd in HG.
+  set (out := map (fun i => (nth i (v0 :: map snd l) 0, nth i e 0)) c) in *.
+  destruct HG as [Hlk [Hfo [Hs [vh [th Hh]]]]].
+  set (ps := if ar then out else remove_repeats out).
+  assert (Hps : (forall k, 0 <= k < N -> lookupd 0 ps k = ivalue isg ((0, v0) :: l) k) /\
+                Forall (fun d => 0 <= d < N) (map snd ps) /\ ssorted (map snd ps) /\
+                (exists t', ps = (vh, 0) :: t') /\ (ar = false -> norep (map fst ps))).
+  { assert (Hfo' : Forall (fun d => 0 <= d < N) (map snd out)) by (apply Forall_map; exact Hfo).
+    unfold ps. destruct ar.
+    - repeat split; auto; [eauto|discriminate].
+    - split; [intros k Hk; rewrite rr_lookup by exact Hs; apply Hlk; exact Hk|].
+      split; [apply rr_Forall; exact Hfo'|]. split; [apply rr_ssorted; exact Hs|].
+      split; [eapply rr_head; exact Hh|]. intros _. apply rr_norep. }
+  destruct Hps as [Plk [Pfo [Pss [[t' Ph] Pnr]]]].
+  cbv zeta. simpl fst. simpl snd. split.
+  - rewrite (cat_all_lookup ps N vh t' Ph Pss Pfo). f_equal. apply map_ext_in.
+    intros k Hk. apply Plk. apply zrange_bounds. exact Hk.
+  - unfold wf_result. split; [rewrite Ph; simpl; eauto|].
+    split; [apply ssorted_snoc; [exact Pss|eapply Forall_impl; [|exact Pfo]; simpl; intros; lia]|].
+    split; [apply last_app_single|]. split; [rewrite app_length, !map_length; simpl; lia|exact Pnr].
+Qed.
